@@ -76,7 +76,9 @@ def _text_cases(draw):
         "indent": draw(st.sampled_from(["", "", "  ", "    ", "        ", "\t", " \t"])),
         "lead": draw(blank_st),
         "trail": draw(blank_st),
-        "shebang": draw(st.booleans()),
+        # False = no shebang; True = '#!/bin/cat'; 'space' / 'tab' = the equally valid spellings with
+        # whitespace after '#!'
+        "shebang": draw(st.sampled_from([False, False, True, True, "space", "tab"])),
         "eof_prefix": prefix,
         "shell": draw(st.sampled_from(["sh", "bash"])),
     }
@@ -85,8 +87,12 @@ def _text_cases(draw):
 text_cases = _text_cases()
 
 
+def shebang_line(kind) -> str:
+    return {True: CAT, "space": "#! /bin/cat", "tab": "#!\t/bin/cat"}[kind]
+
+
 def build_text(case: dict) -> str:
-    body = ([CAT] if case["shebang"] else []) + list(case["lines"])
+    body = ([shebang_line(case["shebang"])] if case["shebang"] else []) + list(case["lines"])
     ind = case["indent"]
     return "\n".join(list(case["lead"]) + [ind + ln for ln in body] + list(case["trail"]))
 
@@ -116,7 +122,8 @@ def text_oracle(ctx: Ctx, case: dict) -> None:
 
     # The text whose wrapper is executed must be interpreted by /bin/cat.
     if body.startswith("#!"):
-        exec_text = prepared if (body == CAT or body.startswith(CAT + "\n")) else None
+        first = body.split("\n", 1)[0]
+        exec_text = prepared if first in (CAT, "#! /bin/cat", "#!\t/bin/cat") else None
         want_exec = body
     else:
         with ctx.no_raise("prepare_command", case):
@@ -258,7 +265,7 @@ staging_cases = st.fixed_dictionaries({
     "part": st.just("staging"),
     "inputs": inputs_st,
     "outputs": outputs_st,
-    "shebang": st.sampled_from(["none", "none", "sh", "bash"]),
+    "shebang": st.sampled_from(["none", "none", "sh", "bash", "sh-space"]),
     "tempdir": st.booleans(),
     "indent": st.sampled_from(["", "    ", "\t"]),
 })
@@ -425,7 +432,7 @@ class _Plan:
         raise ValueError(spec)
 
     def command(self) -> str:
-        sheb = {"none": [], "sh": ["#!/bin/sh"], "bash": ["#!/usr/bin/env bash"]}[self.case["shebang"]]
+        sheb = {"none": [], "sh": ["#!/bin/sh"], "bash": ["#!/usr/bin/env bash"], "sh-space": ["#! /bin/sh"]}[self.case["shebang"]]
         q = shlex.quote
         body = sheb + ["{"] + ["printf 'SH=%s|' \"${BASH_VERSION:+bash}\""] + self.cmd_in + ["} > " + q(self.record_path),
                                                                                            "cat " + q(self.record_path)]
